@@ -3,3 +3,6 @@ FUNCS = ["ProcessCounterToken.release", "CounterToken.release", "TokenFile.delet
          "Lock.release", "Lock.__exit__", "Locks._release"]
 LEVEL = "proof"
 TRUSTED = []
+
+from bounded.tokens import run_counter_token, run_process_token
+BOUNDED = [("counter-token grid on real files", run_counter_token), ("process-token grid", run_process_token)]
